@@ -36,6 +36,18 @@ Proof.
 Qed.
 End Merge.
 
+(* the store hypothesis as a checkable boolean (used by the examples and by the harness) *)
+Definition coveredb (k : nat) (obs : list value) (stored : list ty) : bool :=
+  forallb (fun x => match get_type k x with Some t => existsb (corrb t) stored | None => false end) obs.
+
+Lemma coveredb_spec k obs stored : coveredb k obs stored = true ->
+  forall x, In x obs -> exists t t', get_type k x = Some t /\ In t' stored /\ corrb t t' = true.
+Proof.
+  unfold coveredb. rewrite forallb_forall. intros H x Hx. specialize (H x Hx).
+  destruct (get_type k x) as [t|]; [|discriminate]. apply existsb_exists in H. destruct H as [t' [H1 H2]].
+  exists t, t'. auto.
+Qed.
+
 (* ---------- the whole pipeline over a class table ---------- *)
 Theorem pipeline_sound h bt k rs (obs : list value) (stored : list ty) T v :
   wf_hier h = true -> bt_ok h bt = true -> chain_ok rs = true ->
@@ -139,6 +151,70 @@ Proof.
     rewrite Forall_forall. intros t' Ht'. apply Hst in Ht'. destruct Ht' as [t [Ht DC]].
     apply (corrb_wf t t' (Wts t Ht)). apply decoded_copy_corr; auto.
 Qed.
+(* the same with the round trip as a function: ds = the decoded copies in trace order, stored = ds in any
+   order and multiplicity *)
+Definition store_rt (t : ty) : option ty :=
+  match type_to_json cname site t with
+  | Ok j => match type_from_json env hidden j with Ok t' => Some t' | _ => None end
+  | _ => None
+  end.
+
+Lemma decoded_copy_iff t t' : decoded_copy t t' <-> store_rt t = Some t'.
+Proof.
+  unfold decoded_copy, store_rt. split.
+  - intros [j [E D]]. rewrite E, D. reflexivity.
+  - destruct (type_to_json cname site t) as [j| |]; try discriminate.
+    destruct (type_from_json env hidden j) as [d| |] eqn:D; try discriminate.
+    intros H. injection H as <-. exists j. split; [reflexivity|exact D].
+Qed.
+
+Lemma Forall2_In_iff {A B} (R : A -> B -> Prop) l l' : Forall2 R l l' ->
+  forall y, In y l' <-> exists x, In x l /\ In y l' /\ R x y.
+Proof.
+  intros F y. split; [|intros [x [_ [H _]]]; exact H].
+  induction F as [|a b l l' Hab _ IH]; intros Hy; [destruct Hy|].
+  destruct Hy as [<-|Hy].
+  - exists a. split; [left; reflexivity|]. split; [left; reflexivity|exact Hab].
+  - destruct (IH Hy) as [x [H1 [H2 H3]]]. exists x. split; [right; exact H1|]. split; [right; exact H2|exact H3].
+Qed.
+
+Theorem pipeline_sound_store_fn h bt k rs (obs : list value) (ts ds stored : list ty) T v :
+  wf_hier h = true -> bt_ok h bt = true -> chain_ok rs = true ->
+  typing_ok env ->
+  forallb wf_valueb obs = true ->
+  mapM (get_type k) obs = Some ts ->
+  Forall (fun t => inferable t /\ Forall (importable cname env hidden) (classes t)) ts ->
+  mapM store_rt ts = Some ds ->
+  (forall t', In t' stored <-> In t' ds) ->
+  shrink_top k stored = Some T -> In v obs ->
+  member true (subclass h) v (rw_chain h bt rs T) = true.
+Proof.
+  intros Hh Hb Hc TOK WV HM OKs HD Hst HS Hv.
+  pose proof (mapM_Forall2 _ _ _ HD) as F2.
+  (* only the types of ts that reach ds matter; restate through the relational theorem on a stored list
+     that is exactly the image *)
+  assert (Himg : forall t, In t ts -> exists d, In d ds /\ store_rt t = Some d).
+  { clear - F2. induction F2 as [|a b l l' Hab _ IH]; intros t Ht; [destruct Ht|].
+    destruct Ht as [<-|Ht]; [exists b; split; [left; reflexivity|exact Hab]|].
+    destruct (IH t Ht) as [d [H1 H2]]. exists d. split; [right; exact H1|exact H2]. }
+  pose proof (mapM_Forall2 _ _ _ HM) as G2.
+  assert (HF : Forall (gt_ok (subclass h) k) obs)
+    by (rewrite Forall_forall; intros x _; apply get_type_ok; apply subclass_refl).
+  destruct (mapM_gt_ok (subclass h) k (fun e => e) obs ts HF WV HM) as [Wts _].
+  rewrite Forall_forall in OKs, Wts.
+  apply (pipeline_sound h bt k rs obs stored T v); try assumption.
+  - intros x Hx.
+    assert (Hex : exists t, In t ts /\ get_type k x = Some t).
+    { clear - G2 Hx. induction G2 as [|a t l l' Ht _ IH]; [destruct Hx|].
+      destruct Hx as [<-|Hx]; [exists t; split; [left; reflexivity|exact Ht]|].
+      destruct (IH Hx) as [t0 [H1 H2]]. exists t0. split; [right; exact H1|exact H2]. }
+    destruct Hex as [t [Ht G]]. destruct (Himg t Ht) as [d [Hd E]].
+    exists t, d. split; [exact G|]. split; [apply Hst; exact Hd|].
+    apply decoded_copy_corr; auto. apply decoded_copy_iff. exact E.
+  - rewrite Forall_forall. intros t' Ht'. apply Hst in Ht'.
+    apply (Forall2_In_iff _ _ _ F2) in Ht'. destruct Ht' as [t [Ht [_ E]]].
+    apply (corrb_wf t t' (Wts t Ht)). apply decoded_copy_corr; auto. apply decoded_copy_iff. exact E.
+Qed.
 End Store.
 
 Print Assumptions merge_sound.
@@ -147,3 +223,4 @@ Print Assumptions pipeline_wf.
 Print Assumptions pipeline_sound_default.
 Print Assumptions pipeline_sound_no_rewriter.
 Print Assumptions pipeline_sound_store.
+Print Assumptions pipeline_sound_store_fn.
